@@ -5,6 +5,8 @@ None on either side) x all valid option combinations; the real
 dvc_data.index.diff.diff vs a flat dictionary-based reference.
 """
 
+CASE_TIMEOUT = 600  # seconds per pool task (the unchanged tree needs a small fraction of this)
+
 import itertools
 from collections import Counter
 
